@@ -37,6 +37,12 @@ MsgsT  == {Ms("P1", "A", 1, 1), Ms("S", "A", 1, 1)}
 SpecsN == {Pl(Sp("P1", "A", "v1", "any")), Sp("P1", "A", "v1", "any")}
 MsgsN  == {Ms("P1", "A", 1, 1), Ms("P1", "A", 2, 1)}
 
+\* a command whose expected reply carries our own user name (room message / ticker echo): the harness lets
+\* field value 1 of the second field stand for the name we are logged in with, value 2 for somebody else's -
+\* and may edit settings.credentials.username (the name for the NEXT login) to that other name meanwhile
+SpecsO == {Ex(Sp("S", "A", "v1", "v1"))}
+MsgsO  == {Ms("S", "A", 1, 1), Ms("S", "A", 1, 2)}
+
 \* every spec against every message (1 caller, 1 message): the matching relation
 SpecsAll == {Sp(c, k, a, b) : c \in {"S", "P1"}, k \in {"A", "B"}, a \in {"any", "v1", "v2", "p1", "p2"},
                               b \in {"any", "v1", "v2", "p2"}}
